@@ -501,11 +501,14 @@ func (s *String) ReadASN1GeneralizedTime(out *time.Time) bool {
 		return false
 	}
 	t := string(bytes)
-	res, err := time.Parse(generalizedTimeFormatStr, t)
+	// As in encoding/asn1: fractional seconds are allowed (DER: without
+	// trailing zeros, which the re-serialization below enforces).
+	const formatStr = "20060102150405.999999999Z0700"
+	res, err := time.Parse(formatStr, t)
 	if err != nil {
 		return false
 	}
-	if serialized := res.Format(generalizedTimeFormatStr); serialized != t {
+	if serialized := res.Format(formatStr); serialized != t {
 		return false
 	}
 	*out = res
